@@ -15,6 +15,8 @@ CLAIMS = {
  "C07": ("Update deletes are justified only at/above the partition with every higher desired ordinal updated and healthy, at most one per reconcile, never under OnDelete; proved at the call site from the update-walk invariant. The revision label of re-created pods is carried by the (currently assumed) contract of newVersionedStatefulSetPod.", RECON_NOTE, "6 C07"),
  "C12": ("Postconditions of updateStatefulSet proved by exact ghost accounting over the snapshot (census sets, live/deleted sets, created counters, counting lemmas): on every error-free exit 0 <= ready, current, updated <= replicas; observedGeneration and the revision names are the reconciled ones; when nothing was created or deleted the four counters are the exact census of the snapshot. (completeRollingUpdate / status writer clauses: see level_note.)",
          "Not yet under contract: completeRollingUpdate, inconsistentStatus, the status updater (currentRevision promotion and observedGeneration monotonicity clauses of the property). " + RECON_NOTE, "6 C12"),
+ "C13": ("The property is the precondition of the ControllerRevision Delete call in truncateHistory (belongs to this set, not current/update/pod-referenced, more than the limit unused, oldest first, each once) plus its postcondition (at most limit unused remain); ListRevisions is proved to return each revision once and only revisions owned by this set or orphaned. Index witnesses (ghost) and counting lemmas make the filter/trim loops inductive.",
+         "Assumed: typed ControllerRevision client contracts, GetControllerOfNoCopy; revisionHistoryLimit present and >= 0 (CRD). The composition ListRevisions -> sort -> truncateHistory inside UpdateStatefulSet is not yet under contract (sortedness is not needed for the safety clauses; 'oldest first' is relative to the order truncateHistory is given).", "6 C13"),
  "C14": ("Postconditions of updateStatefulSet under the Parallel policy: every vacant desired ordinal was created at and every non-terminating condemned snapshot pod was deleted on error-free exits; at most one update delete.", RECON_NOTE, "6 C14"),
  "C15": ("Zero-annotation safety sweep: every dereference, index, slice expression, map write, type assertion, make length, conversion and int32 arithmetic in the functions under contract yields an obligation, proved under the weak 'crd' profile (only what the CRD schema guarantees; strategy/policy strings and the partition arbitrary, pod populations arbitrary including ordinal MaxInt32).",
          "Currently covers updateStatefulSet and the pod predicates; callees with assumed contracts (ApplyRevision, newVersionedStatefulSetPod, library code) are assumed panic-free. " + RECON_NOTE, "6 C15"),
